@@ -84,6 +84,7 @@ def p_geom3(tk, f):
 
 
 def mkdt(us, rep=''):
+    rep = rep.rstrip('I')
     dt = EPOCH + timedelta(microseconds=int(us))
     if rep == 'n':
         return dt.replace(tzinfo=None)
@@ -180,7 +181,7 @@ def _dtobj(dt):
     if dt is None:
         return None
     a, b, rep = dt
-    if a == b:
+    if a == b and not rep.endswith('I'):
         return mkdt(a, rep)
     return TimeInterval(mkdt(a, rep), mkdt(b, rep))
 
@@ -1049,19 +1050,55 @@ HOLE_CELLS = [(Fraction(1, 8), Fraction(1, 4), Fraction(1, 8), Fraction(1, 4)),
 KEYS = ['name', 'n', 'val', 'flag', 'f1', 'label', 'cnt', 'w_9', 'tenletters']
 
 
+PROFILES = ['zero', 'zero', 'outline0', 'first0', 'mixed', 'mixed', 'random', 'random']
+
+
 class Gen:
+    """Degenerate values are first-class: every shape with Z (M) draws a *profile* for its altitudes (measures) —
+    all exactly 0.0, 0.0 on the outline only, 0.0 on the first vertex only, a zero / non-zero mix, or arbitrary —
+    so that code testing the truthiness of a value instead of `is not None` changes behaviour somewhere."""
+
     def __init__(self, rng):
         self.rng = rng
+        self.zp = self.mp = 'random'
+        self.role, self.nth = 'outline', 0
+
+    def start_shape(self):
+        self.zp, self.mp = self.rng.choice(PROFILES), self.rng.choice(PROFILES)
+        self.role, self.nth = 'outline', 0
+
+    def _val(self, mode, prof):
+        if not mode:
+            return None
+        r = self.rng
+        nz = Fraction(r.choice([x for x in range(-8, 40) if x != 0]), 4)
+        if prof == 'zero':
+            return Fraction(0)
+        if prof == 'outline0':
+            return Fraction(0) if self.role == 'outline' else nz
+        if prof == 'first0':
+            return Fraction(0) if self.nth == 0 else nz
+        if prof == 'mixed':
+            return Fraction(0) if r.random() < 0.5 else nz
+        return Fraction(r.randrange(-8, 40), 4)
 
     def zval(self, zmode):
-        return None if not zmode else Fraction(self.rng.randrange(-8, 40), 4)
+        return self._val(zmode, self.zp)
 
     def coord(self, x, y, zmode, mmode=False):
-        return (Fraction(x), Fraction(y), self.zval(zmode), self.zval(mmode))
+        c = (Fraction(x), Fraction(y), self._val(zmode, self.zp), self._val(mmode, self.mp))
+        self.nth += 1
+        return c
 
     def pt(self, zmode, mmode=False):
         r = self.rng
-        return self.coord(Fraction(r.randrange(-170 * 8, 170 * 8), 8), Fraction(r.randrange(-80 * 8, 80 * 8), 8), zmode, mmode)
+        lon, lat = Fraction(r.randrange(-170 * 8, 170 * 8), 8), Fraction(r.randrange(-80 * 8, 80 * 8), 8)
+        c = r.random()
+        if c < 0.06:
+            lon = Fraction(0)
+        elif c < 0.12:
+            lat = Fraction(0)
+        return self.coord(lon, lat, zmode, mmode)
 
     def ring(self, tmpl, x0, y0, w, h, zmode, mmode=False, messy=True):
         """a template ring placed in a box; start vertex, direction and closure are random when messy"""
@@ -1081,11 +1118,14 @@ class Gen:
     def poly(self, x0, y0, zmode, mmode=False, nholes=None, messy=True):
         r = self.rng
         w, h = r.choice([1, 2, 4, 8]), r.choice([1, 2, 4, 8])
+        self.role = 'outline'
         rings = [self.ring(OUTLINES[r.choice(list(OUTLINES))], x0, y0, w, h, zmode, mmode, messy)]
         nholes = r.choice([0, 0, 1, 2]) if nholes is None else nholes
+        self.role = 'hole'
         for (a, b, c, d) in HOLE_CELLS[:nholes]:
             rings.append(self.ring(OUTLINES[r.choice(['rect', 'tri'])], x0 + a * w, y0 + c * h, (b - a) * w, (d - c) * h,
                                    zmode, mmode, messy))
+        self.role = 'outline'
         return rings, w
 
     def origin(self):
@@ -1100,7 +1140,8 @@ class Gen:
         a = BASE_US + r.choice([r.randrange(0, 10), r.randrange(0, 10**7), r.randrange(0, 10**13)])
         rep = r.choice(['', '', '', '@n', '@o60', '@o-330'])
         if c < 0.65:
-            return (a, a, rep)
+            # an instant: given as a datetime or (suffix I) as an explicit zero-length TimeInterval
+            return (a, a, rep + ('' if r.random() < 0.6 else (rep and 'I' or '@I')))
         return (a, a + r.choice([1, 999, 10**6, r.randrange(1, 10**12)]), rep)
 
     def sval(self, kml=False):
@@ -1109,7 +1150,7 @@ class Gen:
         s = r.choice(pool)
         if r.random() < 0.3:
             s += str(r.randrange(100))
-        if not kml and r.random() < 0.05:
+        if not kml and r.random() < 0.15:
             s = ''
         return 's' + q(s)
 
@@ -1118,7 +1159,7 @@ class Gen:
         if wide:
             return 'f' + fbits(r.choice([1 / 3, 1e-20, 2.5e40, r.random(), r.uniform(-1e6, 1e6)]))[1:]
         # floats that a 15-decimal fixed-point field carries exactly
-        return 'f' + fbits(r.choice([r.randrange(-4000, 4000) / 8, r.randrange(-10**6, 10**6) / 1000, 0.0, 0.1, -2.5,
+        return 'f' + fbits(r.choice([r.randrange(-4000, 4000) / 8, r.randrange(-10**6, 10**6) / 1000, 0.0, 0.0, 0.1, -2.5,
                                      r.randrange(10**9) / 64]))[1:]
 
     def schema(self, kinds='sifb', nmax=3):
@@ -1133,7 +1174,7 @@ class Gen:
         for k, t in schema:
             if r.random() < drop:
                 continue
-            v = {'s': lambda: self.sval(kml), 'i': lambda: f'i{r.randrange(-1000, 100000)}',
+            v = {'s': lambda: self.sval(kml), 'i': lambda: f'i{r.choice([0, 0, 1, -1, r.randrange(-1000, 100000), r.randrange(-1000, 100000)])}',
                  'f': lambda: self.fval(wide), 'b': lambda: r.choice(['bT', 'bF'])}[t]()
             out.append((k, v))
         r.shuffle(out)
@@ -1141,6 +1182,7 @@ class Gen:
 
     def shape(self, kind, zmode, mmode=False, schema=(), drop=0.0, kml=False, wide=False, nmembers=None, messy=True):
         r = self.rng
+        self.start_shape()
         x0, y0 = self.origin()
         if kind == 'pt':
             g = [[[self.pt(zmode, mmode)]]]
@@ -1165,6 +1207,7 @@ class Gen:
             w, h = r.choice([1, 2, 4, 8]), r.choice([1, 2, 4, 8])
             z = self.zval(zmode)
             nw, se = (x0, y0 + h, z, None), (x0 + w, y0, z, None)
+            self.role = 'hole'
             holes = [self.ring(OUTLINES['rect'], x0 + a * w, y0 + c * h, (b - a) * w, (d - c) * h, zmode)
                      for (a, b, c, d) in HOLE_CELLS[:r.choice([0, 0, 1, 2])]]
             g = [[[nw, se]] + holes]
@@ -1533,7 +1576,7 @@ def gen_placemark(g, tags):
         elif r.random() < 0.1:
             t = f'Tp{dt[0]},{dt[0]}'
             tags.append('span-equal')
-    opt = [('s' + q(r.choice(['Alpha', 'a place', 'x']))) if r.random() < 0.25 else '-' for _ in range(4)]
+    opt = [('s' + q(r.choice(['Alpha', 'a place', 'x', '']))) if r.random() < 0.25 else '-' for _ in range(4)]
     if any(o != '-' for o in opt):
         tags.append('kml-attributes')
     return ' '.join(['[M', geom, data, t] + opt)
@@ -1546,7 +1589,7 @@ def gen_tree(g, depth, tags):
         return gen_placemark(g, tags)
     kids = [gen_tree(g, depth + 1, tags) for _ in range(r.randrange(0, 4))]
     if c < 0.85:
-        name = r.choice(['-', 'sinner', 's' + q('sub folder'), 'sB'])
+        name = r.choice(['-', 's', 'sinner', 's' + q('sub folder'), 'sB'])
         tags.append(f'folder-depth{depth}')
         return ' '.join(['[F', name, str(len(kids))] + kids)
     if c < 0.95:
@@ -1562,7 +1605,7 @@ def gen_kmlr_line(g):
     kids = [gen_tree(g, 1, tags) for _ in range(r.randrange(1, 5))]
     top = r.random()
     if top < 0.8:
-        return ' '.join(['io.kmlr', '[F', r.choice(['sfold', '-', 's' + q('my folder')]), str(len(kids))] + kids), tags
+        return ' '.join(['io.kmlr', '[F', r.choice(['sfold', '-', 's', 's' + q('my folder')]), str(len(kids))] + kids), tags
     if top < 0.9:
         tags.append('top-kml')
         return ' '.join(['io.kmlr', '[K', str(len(kids))] + kids), tags
@@ -1634,6 +1677,18 @@ def check(run):
         t += ['dt:' + ('none' if r['dt'] is None else 'instant' if r['dt'][0] == r['dt'][1] else 'interval') for r in recs if r['kind'] != 'xx']
         t += ['z' if any(c[2] is not None for r in recs for p in r['geom'] for ring in p for c in ring) else 'no-z']
         t += ['ptype:' + v[0] for r in recs for _k, v in r['props']]
+        for r in recs:                                  # degenerate values (truthiness class)
+            for i, nm in ((2, 'z'), (3, 'm')):
+                vals = [c[i] for p in r['geom'] for ring in p for c in ring if c[i] is not None]
+                out0 = [c[i] for p in r['geom'] for c in (p[0] if p else []) if c[i] is not None]
+                if vals and r['kind'] != 'ci':
+                    t.append(f'{nm}:all-zero' if not any(vals) else f'{nm}:outline-zero' if out0 and not any(out0)
+                             else f'{nm}:some-zero' if not all(vals) else f'{nm}:non-zero')
+            t += ['pval:falsy' for _k, v in r['props'] if v in ('s', 'i0', 'bF', 'f0000000000000000')]
+            if r['dt'] is not None and r['dt'][2].endswith('I'):
+                t.append('dt:zero-length-interval')
+        if not recs:
+            t.append('empty-collection')
         return t
 
     # ---- (i) adapter streams: our code against the model, the libraries replaced by fakes -----------
@@ -1649,7 +1704,7 @@ def check(run):
             incl = rng.sample(KEYS + ['datetime_start', 'datetime_end'], rng.randrange(0, 4))
         body = t_coll(recs)
         for ln in (f'io.shpw {t_incl(incl)} {body}', f'io.gpdw {t_incl(incl)} {body}',
-                   f'io.kmlw {rng.choice(["sfold", "s" + q("my folder"), "sF2"])} {body}', f'io.mk {body}'):
+                   f'io.kmlw {rng.choice(["sfold", "s" + q("my folder"), "sF2", "s"])} {body}', f'io.mk {body}'):
             ln = ln.rstrip()
             lines.append(ln)
             table[ln] = coll_tags(recs) + (['include_properties'] if incl is not None else [])
@@ -1722,9 +1777,8 @@ def check(run):
             if fmt.startswith('kml') and 'skinds' not in kw:
                 kw['skinds'] = 's'
             recs = g.coll(kinds, kml=fmt.startswith('kml'), **kw)
-            for rec in recs:      # boxes / circles with Z = 0.0 lose Z on derived corners (GeoBox.bounding_coords): no Z then
-                if rec['kind'] in ('bx', 'ci') and any(c0[2] == 0 for p in rec['geom'] for ring in p for c0 in ring):
-                    rec['geom'] = [[[(c0[0], c0[1], None, c0[3]) for c0 in ring] for ring in p] for p in rec['geom']]
+            if rng.random() < 0.03:
+                recs, extra = [], ['empty-collection']
             ln = f'io.e2e-{fmt} ' + t_coll(recs)
             lines.append(ln)
             recmap[ln] = recs
@@ -1760,6 +1814,6 @@ def check(run):
             'generator restrictions (outside the statement\'s "type-compatible" domain, not findings): dbf keys <= 10 '
             'ASCII characters and strings <= 50 characters; KML strings non-empty without surrounding white space; '
             'floats in the default streams are exact in a 15-decimal field; no M values end to end (KML/WKT have no M); '
-            'GeoBox/GeoCircle never with Z = 0.0 (their derived corners lose it); holes inside their shell and parts disjoint (pyshp groups holes geometrically)',
+            'holes inside their shell and parts disjoint (pyshp groups holes geometrically)',
         ],
         checker_cmd='cd lean && lake build GeoVerif.Props.C20 && lake env lean .lake/audit/C20.lean  (#print axioms)')
